@@ -419,3 +419,64 @@ pub fn answer_during_upload(client_port: u16, hs: Hs, n_down: u32, tag: u64) -> 
     let _ = drainer.join();
     res
 }
+
+/// The target answers `n_down` bytes and closes; the application - a slow consumer with a small receive buffer, so that
+/// most of the answer waits in the client's socket - does not read for `stall_ms` and then reads everything: it must get
+/// the complete answer and then end-of-stream, however long it took to come back for it.
+pub fn stalled_answer(client_port: u16, hs: Hs, n_down: u32, tag: u64, stall_ms: u32) -> Result<(), FlowFail> {
+    use std::io::Read;
+    let listener = Listener::bind();
+    let (mut app, pre) = net::app_connect_opt(client_port, hs, listener.port, Duration::from_secs(15), Some(2048)).map_err(|e| soft("handshake", format!("local {} handshake failed: {}", hs.name(), e)))?;
+    net::write_ks(&mut app, tag * 2 + 1, 0, 120).map_err(|e| soft("app-write", format!("first write: {}", e)))?;
+    let Some(mut tgt) = listener.accept(wait()) else {
+        return Err(soft("no-dial", format!("the target on port {} was not dialled within {:?}", listener.port, wait())));
+    };
+    // the target takes the whole request first: closing a socket with unread input would reset the connection, and the
+    // loss of the answer's tail would be the target's own doing
+    {
+        let want = pre.len() + 120;
+        let mut req = vec![0u8; want];
+        tgt.set_read_timeout(Some(wait())).ok();
+        tgt.read_exact(&mut req).map_err(|e| soft("app-to-target-stall", format!("the target did not receive the {}-byte request within {:?}: {}", want, wait(), e)))?;
+    }
+    let n = (n_down as usize).max(1);
+    tgt.set_write_timeout(Some(wait())).ok();
+    net::write_ks(&mut tgt, tag * 2 + 2, 0, n).map_err(|e| soft("target-write", format!("target write of {} bytes: {}", n, e)))?;
+    let _ = tgt.shutdown(Shutdown::Both);
+    drop(tgt);
+    std::thread::sleep(Duration::from_millis(stall_ms as u64));
+    app.set_read_timeout(Some(wait())).ok();
+    let mut got: Vec<u8> = Vec::with_capacity(n);
+    let mut buf = vec![0u8; 16384];
+    let how;
+    loop {
+        match app.read(&mut buf) {
+            Ok(0) => {
+                how = "end-of-stream".to_string();
+                break;
+            }
+            Ok(k) => got.extend_from_slice(&buf[..k]),
+            Err(e) if e.kind() == std::io::ErrorKind::WouldBlock || e.kind() == std::io::ErrorKind::TimedOut => {
+                return Err(soft("no-eof-at-app", format!("target wrote {} bytes and closed; the application, back after {} ms, has {} bytes and no end-of-stream after {:?}", n, stall_ms, got.len(), wait())));
+            }
+            Err(e) => {
+                how = format!("error {}", e);
+                break;
+            }
+        }
+        if got.len() > n {
+            return Err(hard("app-extra-bytes", format!("application received {} bytes, target wrote {}", got.len(), n)));
+        }
+    }
+    let exp = crate::gen::keystream(tag * 2 + 2, 0, n);
+    if let Some(at) = got.iter().zip(exp.iter()).position(|(a, b)| a != b) {
+        return Err(hard("app-wrong-byte", format!("byte {} of the answer differs from what the target wrote", at)));
+    }
+    if got.len() < n {
+        return Err(hard("answer-truncated-for-late-reader", format!("target wrote {} bytes and closed; the application came back for them {} ms later and got {} bytes and then {}", n, stall_ms, got.len(), how)));
+    }
+    if how != "end-of-stream" {
+        return Err(soft("reset-instead-of-eof", format!("target closed cleanly after answering; the late application got all {} bytes but then {}", n, how)));
+    }
+    Ok(())
+}
